@@ -232,6 +232,7 @@ func c15Build(r *Run, state string) *c15Setup {
 		do(MkReceive(UserB.Str, in, Attest(in, signers), "burn(0,5,9)"))
 		do(Act("setMaxBurnAmountPerMessage(uusdc,100) by A3", &cctptypes.MsgSetMaxBurnAmountPerMessage{From: TokenCtl.Str, LocalToken: "uusdc", Amount: math.NewInt(100)}))
 		do(Act("disableAttester(K3) by A1", &cctptypes.MsgDisableAttester{From: AttMgr.Str, Attester: Keys[2].Hex}))
+		do(Act("enableAttester(\"04\") by A1", &cctptypes.MsgEnableAttester{From: AttMgr.Str, Attester: "04"})) // a key string that is a strict prefix of the real keys
 		do(Act("updateOwner(A5) by A0", &cctptypes.MsgUpdateOwner{From: Owner.Str, NewOwner: UserB.Str}))
 	case "send-paused":
 		do(Act("pauseSendingAndReceiving by A2", &cctptypes.MsgPauseSendingAndReceivingMessages{From: Pauser.Str}))
@@ -279,6 +280,8 @@ func c15Build(r *Run, state string) *c15Setup {
 		Act("disableAttester(K6) unknown", &cctptypes.MsgDisableAttester{From: AttMgr.Str, Attester: Keys[5].Hex}),
 		Act("disableAttester(\"0x\")", &cctptypes.MsgDisableAttester{From: AttMgr.Str, Attester: "0x"}),
 		Act("disableAttester(K1)", &cctptypes.MsgDisableAttester{From: AttMgr.Str, Attester: Keys[0].Hex}),
+		Act("disableAttester(\"04\")", &cctptypes.MsgDisableAttester{From: AttMgr.Str, Attester: "04"}),
+		Act("enableAttester(\"0\")", &cctptypes.MsgEnableAttester{From: AttMgr.Str, Attester: "0"}),
 		Act("disableAttester(K2)", &cctptypes.MsgDisableAttester{From: AttMgr.Str, Attester: Keys[1].Hex}),
 		Act("linkTokenPair(0,token0) duplicate", &cctptypes.MsgLinkTokenPair{From: TokenCtl.Str, RemoteDomain: DomEth, RemoteToken: RemoteToken0, LocalToken: "uatom"}),
 		Act("linkTokenPair(5, 31 bytes)", &cctptypes.MsgLinkTokenPair{From: TokenCtl.Str, RemoteDomain: 5, RemoteToken: distinct32(0xF0)[:31], LocalToken: "uusdc"}),
